@@ -1,6 +1,6 @@
 (* C11 proofs, part 4: whole-query statements: P / NOT P / P IS NULL partition the result;
    every plan gen_plan can produce returns the same rows; ORDER BY output is sorted by the sort
-   reader's comparison (refuted for NULLS FIRST/LAST served by an index, proved otherwise);
+   reader's comparison, NULLS FIRST/LAST included (after fix f375c29 of coversOrdCols);
    with a total ORDER BY the result SEQUENCE, LIMIT/OFFSET included, is plan independent. *)
 From V Require Import Plan.Model Plan.EncOrder Plan.Ranges Plan.Scan.
 From Coq Require Import Sorting.Sorted Sorting.Permutation.
@@ -242,6 +242,9 @@ Qed.
 (* the ordering expression asks for the placement of NULLs that the index provides *)
 Definition nulls_default (o : ordexp) : bool := Bool.eqb (nulls_first o) (negb (o_desc o)).
 
+Lemma nulls_served_default o : nulls_served o = nulls_default o.
+Proof. unfold nulls_served, nulls_default, nulls_first. destruct (o_nulls o), (o_desc o); reflexivity. Qed.
+
 Lemma col_cmp_default o x y :
   nulls_default o = true ->
   col_cmp o x y = if o_desc o then CompOpp (sv_cmp x y) else sv_cmp x y.
@@ -316,12 +319,15 @@ Lemma covers_order icols os rs d r1 r2 :
   os <> [] ->
   covers_ord_cols icols os rs = true ->
   d = match os with o :: _ => o_desc o | [] => false end ->
-  forallb nulls_default os = true ->
   ranges_sound rs r1 -> ranges_sound rs r2 ->
   row_le icols d r1 r2 -> ord_le os r1 r2 = true.
 Proof.
-  intros Hne Hc Hd Hn S1 S2 Hle.
+  intros Hne Hc Hd S1 S2 Hle.
   unfold covers_ord_cols in Hc. apply andb_prop in Hc as [Hdir Hc].
+  apply andb_prop in Hdir as [Hdir Hn].
+  assert (Hn' : forallb nulls_default os = true).
+  { rewrite forallb_forall in *. intros x Hx. rewrite <- nulls_served_default. auto. }
+  clear Hn. rename Hn' into Hn.
   assert (Huni : forallb (fun o => Bool.eqb (o_desc o) d && nulls_default o) os = true).
   { destruct os as [|o os]; [congruence|]. subst d. cbn [same_direction] in Hdir.
     cbn [forallb] in *. apply andb_prop in Hn as [Hn1 Hn2].
@@ -353,17 +359,15 @@ Proof.
   apply filter_In in H. auto.
 Qed.
 
-(* ORDER BY output is sorted by the sort reader's comparison: proved for every plan that sorts
-   explicitly, and for index-served ORDER BY when no NULLS FIRST/LAST clause contradicts the index *)
-Theorem order_by_sorted_partial_lemma pfx_of idxs t q pl :
+(* ORDER BY output is sorted by the sort reader's comparison (NULLS FIRST/LAST included), for every
+   plan: explicit sort, or index-served when coversOrdCols accepts the index *)
+Theorem order_by_sorted_lemma pfx_of idxs t q pl :
   table_ok t = true -> pred_ok (q_where q) = true ->
   gen_plan pfx_of idxs q = Some pl ->
-  p_sort pl = true \/ forallb nulls_default (q_order q) = true ->
   ord_sorted (q_order q) (exec_plan pfx_of t q pl).
 Proof.
-  intros Ht Hp H Hcond. rewrite (exec_plan_unsorted _ _ _ _ _ H). cbv zeta.
+  intros Ht Hp H. rewrite (exec_plan_unsorted _ _ _ _ _ H). cbv zeta.
   destruct (p_sort pl) eqn:Es; [apply sort_rows_sorted|].
-  destruct Hcond as [Hcond|Hn]; [discriminate|].
   destruct (gen_plan_shape _ _ _ _ H) as (_ & _ & Hcov & Hnil).
   destruct (q_order q) as [|o os] eqn:Eo.
   - (* no ORDER BY: every list is sorted for the empty comparator *)
@@ -394,24 +398,19 @@ Proof.
   inversion Hx; subst. rewrite H1, IH. reflexivity.
 Qed.
 
-(* the faithful model is NOT sorted by the SQL comparison when ORDER BY a NULLS LAST is served by
-   an index on a: coversOrdCols ignores OrdExp.nullsOrder.  Witness replayed on the Go engine. *)
 Definition refute_idxs : list index := [mkIndex 0 [CId]; mkIndex 1 [CA]].
 Definition refute_table : list row :=
   [mkRow 1 (Some 5%Z) None None; mkRow 2 None None None; mkRow 3 (Some 7%Z) None None].
-Definition refute_query : query := mkQuery PTrue [mkOrd CA false NLast] 0 0 None.
 
-Theorem order_by_sorted_refuted_lemma :
-  exists pfx_of idxs t q pl,
-    table_ok t = true /\ pred_ok (q_where q) = true /\ gen_plan pfx_of idxs q = Some pl /\
-    ~ ord_sorted (q_order q) (exec_plan pfx_of t q pl).
-Proof.
-  exists (mk_pfx [115; 113; 108] 1), refute_idxs, refute_table, refute_query.
-  eexists. split; [reflexivity|]. split; [reflexivity|]. split; [vm_compute; reflexivity|].
-  intros H. apply ord_sorted_adj in H. vm_compute in H. discriminate.
-Qed.
+(* regression of the defect fixed by f375c29: ORDER BY a NULLS LAST is no longer served by the
+   index on a; the explicit sort puts the NULL last *)
+Example order_by_nulls_last_example :
+  let q := mkQuery PTrue [mkOrd CA false NLast] 0 0 None in
+  exists pl, gen_plan (mk_pfx [115] 1) refute_idxs q = Some pl /\ p_sort pl = true /\
+             map r_id (exec_plan (mk_pfx [115] 1) refute_table q pl) = [1; 3; 2]%Z.
+Proof. eexists. split; [vm_compute; reflexivity|]. vm_compute. auto. Qed.
 
-Example order_by_sorted_partial_example :
+Example order_by_sorted_example :
   exists pl, gen_plan (mk_pfx [115] 1) refute_idxs (mkQuery PTrue [mkOrd CA true NDefault] 0 0 None) = Some pl /\
              p_sort pl = false /\ p_desc pl = true /\
              map r_id (exec_plan (mk_pfx [115] 1) refute_table (mkQuery PTrue [mkOrd CA true NDefault] 0 0 None) pl) = [3; 1; 2]%Z.
@@ -462,20 +461,19 @@ Qed.
 Theorem total_order_plan_independent_lemma pfx_of pfx_of' idxs idxs' t q u u' pl pl' :
   table_ok t = true -> NoDup (map r_id t) -> pred_ok (q_where q) = true ->
   In CId (map o_col (q_order q)) ->
-  forallb nulls_default (q_order q) = true ->
   gen_plan pfx_of idxs (mkQuery (q_where q) (q_order q) (q_limit q) (q_offset q) u) = Some pl ->
   gen_plan pfx_of' idxs' (mkQuery (q_where q) (q_order q) (q_limit q) (q_offset q) u') = Some pl' ->
   exec pfx_of idxs t (mkQuery (q_where q) (q_order q) (q_limit q) (q_offset q) u) =
   exec pfx_of' idxs' t (mkQuery (q_where q) (q_order q) (q_limit q) (q_offset q) u').
 Proof.
-  intros Ht Hnd Hp Hid Hn G1 G2. unfold exec. rewrite G1, G2. cbn [q_limit q_offset].
+  intros Ht Hnd Hp Hid G1 G2. unfold exec. rewrite G1, G2. cbn [q_limit q_offset].
   f_equal. f_equal. f_equal.
   set (q1 := mkQuery (q_where q) (q_order q) (q_limit q) (q_offset q) u) in *.
   set (q2 := mkQuery (q_where q) (q_order q) (q_limit q) (q_offset q) u') in *.
   pose proof (exec_plan_rows pfx_of idxs t q1 pl Ht Hp G1) as P1.
   pose proof (exec_plan_rows pfx_of' idxs' t q2 pl' Ht Hp G2) as P2.
-  pose proof (order_by_sorted_partial_lemma pfx_of idxs t q1 pl Ht Hp G1 (or_intror Hn)) as S1.
-  pose proof (order_by_sorted_partial_lemma pfx_of' idxs' t q2 pl' Ht Hp G2 (or_intror Hn)) as S2.
+  pose proof (order_by_sorted_lemma pfx_of idxs t q1 pl Ht Hp G1) as S1.
+  pose proof (order_by_sorted_lemma pfx_of' idxs' t q2 pl' Ht Hp G2) as S2.
   cbn [q_where q_order q1 q2] in *.
   eapply sorted_perm_unique; [| exact S1 | exact S2 |].
   - intros x y Hx Hy L1 L2.
